@@ -2,4 +2,4 @@
 From Coq Require Import Extraction ExtrOcamlBasic.
 Require Import Celma.Common.Res Celma.ArgH.Key Celma.ArgH.Handler Celma.ArgH.Cont.
 Extraction Language OCaml.
-Extraction "../ocaml/gen/c06_model.ml" add_format add_format_pos setup_ok default_sep default_card init_ints nset_add flag_value eval eval_pinned.
+Extraction "../ocaml/gen/c06_model.ml" add_format add_format_pos setup_ok default_sep default_card init_ints init_map nset_add flag_value eval eval_pinned.
